@@ -88,4 +88,23 @@ def BSt.result (s : BSt) (t : Tid) : Option RxOptions :=
 option list, whatever the streams before it were given. -/
 def seqCaps (streams : List (List WOpt)) : List (Option Nat) := streams.map streamCap
 
+/-! ### delegating entry points: what reaches `buildOptions` -/
+
+/-- what a delegating entry point puts in the option position of the call it delegates to: its OWN `opts...`,
+nothing at all (the slip of seeded change C05-11 / mutation m4), or a fixed `WithWorkers(k)` (`Finish`, `FinishVoid`:
+`k = len(fns)`). -/
+inductive Fwd where
+  | own | nothing | fixed (k : Int)
+  deriving Repr, DecidableEq
+
+def Fwd.apply : Fwd → List WOpt → List WOpt
+  | .own, o => o
+  | .nothing, _ => []
+  | .fixed k, _ => [.withWorkers k]
+
+/-- the capacity a stream gets when the caller's option list travels through a chain of delegating calls (outermost
+first) down to `buildOptions`. -/
+def capThrough (chain : List Fwd) (opts : List WOpt) : Option Nat :=
+  streamCap (chain.foldl (fun o f => f.apply o) opts)
+
 end GoZero.C05
